@@ -28,6 +28,8 @@ pub struct Job {
     pub opts: Opts,
     pub alpha: Vec<Tok>,
     pub len: usize,
+    /// environment variables set while this job is observed (identically in every build)
+    pub env: Vec<(&'static str, &'static str)>,
 }
 
 /// the definitions every build walks (no completion-only constructs)
@@ -38,24 +40,24 @@ pub fn jobs(tier: Tier, seed: u64) -> Vec<Job> {
     tails.extend(fam::cmd_tails(seed, true, true));
     for l in fam::conventional(tier.pick(1, 2), &tails, seed) {
         let alpha = alphabet(&l, AlphaStyle::Compact);
-        out.push(Job { opts: l.to_opts(), alpha, len: 3 });
+        out.push(Job { opts: l.to_opts(), alpha, len: 3, env: vec![] });
     }
     if tier == Tier::Quick {
         for l in fam::conventional(2, &tails, seed + 1).into_iter().step_by(5) {
             let alpha = alphabet(&l, AlphaStyle::Compact);
-            out.push(Job { opts: l.to_opts(), alpha, len: 2 });
+            out.push(Job { opts: l.to_opts(), alpha, len: 2, env: vec![] });
         }
     }
     for o in crate::shape::shapes(1, seed).into_iter().chain(crate::shape::shapes(2, seed).into_iter().step_by(tier.pick(3, 1))) {
         let alpha = crate::shape::shape_alphabet(&o);
-        out.push(Job { opts: o, alpha, len: 3 });
+        out.push(Job { opts: o, alpha, len: 3, env: vec![] });
     }
     for d in crate::checks::c19::defs(4, false) {
-        out.push(Job { opts: crate::checks::c19::to_opts(&d), alpha: crate::checks::c19::alphabet_for(d.g), len: tier.pick(3, 4) });
+        out.push(Job { opts: crate::checks::c19::to_opts(&d), alpha: crate::checks::c19::alphabet_for(d.g), len: tier.pick(3, 4), env: vec![] });
     }
     for v in crate::checks::c07::C07.units(Tier::Quick, seed).into_iter().step_by(tier.pick(7, 2)) {
         let d: crate::checks::c07::Def = serde_json::from_value(v).unwrap();
-        out.push(Job { opts: crate::checks::c07::to_opts(&d), alpha: crate::checks::c07::alphabet_for(&d), len: 3 });
+        out.push(Job { opts: crate::checks::c07::to_opts(&d), alpha: crate::checks::c07::alphabet_for(&d), len: 3, env: vec![] });
     }
     // the same short name as a flag at one level and as an argument at another: clusters are
     // ambiguous and must be reported the same way by every build
@@ -66,7 +68,7 @@ pub fn jobs(tier: Tier, seed: u64) -> Vec<Job> {
         let inner = if wrap { inner.opt() } else { inner };
         let cmd = P::cmd("cmd", Opts::new(P::Seq(vec![inner, P::Switch(Names::short('b'))])));
         let o = Opts::new(P::Seq(vec![if outer_arg { outer.opt() } else { outer }, cmd.opt()]));
-        out.push(Job { opts: o, alpha: toks(&["-a", "-ab", "-aa", "-ba", "-b", "cmd", "v", "-a=v", "--"]), len: 3 });
+        out.push(Job { opts: o, alpha: toks(&["-a", "-ab", "-aa", "-ba", "-b", "cmd", "v", "-a=v", "--"]), len: 3, env: vec![] });
     }
     // help texts with code examples (indented and fenced), paragraphs, hard line breaks: the
     // text splitter has docgen-only branches
@@ -74,18 +76,48 @@ pub fn jobs(tier: Tier, seed: u64) -> Vec<Job> {
         let mut o = Opts::new(P::Seq(vec![P::Switch(Names::both('a', "alpha").help(text)), P::arg(Names::long("beta").help(text), Ty::Os).opt()]));
         o.cfg.descr = Some(DocSpec::plain(text));
         o.cfg.footer = Some(DocSpec::plain(text));
-        out.push(Job { opts: o, alpha: toks(&["-a", "--beta=v", "--help", "--zz"]), len: 2 });
+        out.push(Job { opts: o, alpha: toks(&["-a", "--beta=v", "--help", "--zz"]), len: 2, env: vec![] });
+    }
+    // non-ASCII names, metavariables and help texts (column arithmetic in the console renderer)
+    for text in ["ФАЙЛ с описанием достаточно длинным чтобы строка была перенесена на следующую строку несколько раз подряд", "日本語のヘルプ", "é"] {
+        let a = P::Arg { names: Names::both('ф', "файл").help(text), ty: Ty::Os, adjacent: false, metavar: "ФАЙЛ".into() };
+        let mut o = Opts::new(P::Seq(vec![a.opt(), P::Switch(Names::long("plain").help("plain")), P::Pos { ty: Ty::Os, strict: Strict::Any, metavar: "ПУТЬ".into(), help: Some(DocSpec::plain(text)) }.opt()]));
+        o.cfg.descr = Some(DocSpec::plain(text));
+        out.push(Job { opts: o, alpha: toks(&["-ф", "--файл=v", "--plain", "--help", "w", "--zz"]), len: 2, env: vec![] });
+    }
+    // env-backed items with the variable unset / valid / invalid
+    for (var_state, kind) in [("", 0), ("7", 0), ("x", 0), ("", 1), ("7", 1), ("x", 1), ("x", 2), ("7", 2)] {
+        let arg = P::Arg { names: Names::long("level").env("BPAFMC_C20"), ty: Ty::U32, adjacent: false, metavar: "N".into() };
+        let item = match kind {
+            0 => arg.many(),
+            1 => arg.opt(),
+            _ => arg,
+        };
+        let o = Opts::new(P::Seq(vec![P::arg(Names::long("name"), Ty::Str).opt(), item, P::Switch(Names::short('s').env("BPAFMC_C20S"))]));
+        let env = if var_state.is_empty() { vec![] } else { vec![("BPAFMC_C20", var_state)] };
+        out.push(Job { opts: o, alpha: toks(&["--level=1", "--level", "2", "--name=bob", "-s", "--help"]), len: 3, env });
     }
     for o in crate::docfam::doc_defs(2).into_iter().step_by(tier.pick(9, 2)) {
         let mut alpha = crate::shape::shape_alphabet(&o);
         alpha.retain(|t| t.0 != b"w");
-        out.push(Job { opts: o, alpha, len: 2 });
+        out.push(Job { opts: o, alpha, len: 2, env: vec![] });
     }
     out
 }
 
 /// every observation of one definition, as text lines (vector, outcome)
 pub fn observe(j: &Job, f: &mut dyn FnMut(&[Tok], String)) {
+    std::env::remove_var("BPAFMC_C20");
+    std::env::remove_var("BPAFMC_C20S");
+    for (k, v) in &j.env {
+        std::env::set_var(k, v);
+    }
+    observe_inner(j, f);
+    for (k, _) in &j.env {
+        std::env::remove_var(k);
+    }
+}
+fn observe_inner(j: &Job, f: &mut dyn FnMut(&[Tok], String)) {
     let p = match build_checked(&j.opts) {
         Ok(p) => p,
         Err(e) => {
